@@ -395,7 +395,7 @@ func RunBuiltData(schema z.ZogSchema, c *Case, rec *Recorder, data any) *Result 
 }
 
 func SentinelZero(n *Node) D {
-	if n.Kind == "ptr" {
+	if n.Kind == "ptr" || n.Kind == "pre" {
 		return ZeroD(n)
 	}
 	return sentinelZero(n)
